@@ -6,7 +6,10 @@ each parameter is *pinned* through single-member enums, so it is known without l
 optional / required body (JSON, urlencoded form, text/plain) and base URLs with and without base path / trailing slash.
 String alphabets in tiers: A letters/digits/non-ASCII; B URL-reserved characters, `.` / `..`; C the styles' own
 delimiters inside items (ambiguous by specification: classified separately, never a violation).
-Cases are drawn with ``operation.as_strategy()`` and sent with ``case.call()`` to the recording loopback server.
+Cases are drawn with ``operation.as_strategy()``, joined by the operation's positive boundary cases
+(``_iter_coverage_cases``; an optional free `aux` parameter makes the generator emit several around one template) and
+sent with ``case.call()`` to the recording loopback server (sub-check ``wire``) or to recording WSGI / ASGI applications
+(``transports``); ``swagger2`` does the same for Swagger 2.0 `collectionFormat` parameters and formData.
 Oracle, from the raw recorded request: path = base path + template with each variable segment decoding (percent-decode,
 no `+` translation) to the style-serialised value; query / header / cookie values decoded with the declared style's
 decoder into structures equal to the pinned value up to string coercion (booleans / null spelled true/false/null); body
@@ -97,6 +100,8 @@ def schema_for(value):
         return {"type": "boolean", "enum": [value]}
     if isinstance(value, int):
         return {"type": "integer", "enum": [value]}
+    if isinstance(value, float):
+        return {"type": "number", "enum": [value]}
     if isinstance(value, str):
         return {"type": "string", "enum": [value]}
     if isinstance(value, list):
@@ -118,13 +123,22 @@ def wire_case(draw):
         used.add(p["in"])
         params.append(p)
     body = None
-    kind = draw(st.sampled_from([None, None, "json", "form", "text"]))
+    kind = draw(st.sampled_from([None, None, "json", "form", "text", "multipart"]))
     if kind == "json":
         body = {"media_type": "application/json", "value": draw(st.sampled_from([{"a": 1, "b": ["x", None, True]}, [1, 2], "s", 0, {"é": "ü"}]))}
     elif kind == "form":
         body = {"media_type": "application/x-www-form-urlencoded", "value": {"f": draw(st.sampled_from(["a b", "x&y=z", "é", "1"])), "g": draw(st.sampled_from(["v", "", "+"]))}}
     elif kind == "text":
         body = {"media_type": "text/plain", "value": draw(st.sampled_from(["plain text", "line1\nline2", "é✓", ""]))}
+    elif kind == "multipart":
+        fields = {"f": draw(st.sampled_from(["a b", "x&y=z", "é", "1", "line1\r\nline2"]))}
+        if draw(st.booleans()):
+            fields["n"] = draw(st.sampled_from([3, 0, -7, 2.5]))
+        if draw(st.booleans()):
+            fields["items"] = draw(st.sampled_from([["a", "b"], [1, 2, 3], [0.5, 2.25], ["x"], [1.5, 7]]))
+        if draw(st.integers(0, 3)) == 0:
+            fields["flag"] = draw(st.booleans())
+        body = {"media_type": "multipart/form-data", "value": fields}
     return {"tier": tier, "params": params, "body": body, "body_required": draw(st.sampled_from([True, True, False])), "base": draw(st.sampled_from(["", "/api", "/api/"])), "method": draw(st.sampled_from(["post", "put", "patch"]))}
 
 
@@ -138,6 +152,8 @@ def build_doc(inp) -> tuple[dict, str]:
         else:
             d.update(schema=schema_for(p["value"]), style=p["style"], explode=p["explode"])
         plist.append(d)
+    # an optional free parameter: it makes the boundary generator produce several cases around one template of pinned values
+    plist.append({"name": "aux", "in": "query", "required": False, "schema": {"type": "integer", "minimum": 1, "maximum": 5}})
     op = {"parameters": plist, "responses": {"200": {"description": "ok"}}}
     if inp["body"]:
         b = inp["body"]
@@ -329,9 +345,18 @@ def check_wire(ctx: Ctx, inp) -> None:
     from vfw.props import c01
 
     doc, path = build_doc(inp)
-    server = loopback.shared()
+    transport = inp.get("transport", "requests")
     try:
-        schema = schemathesis.openapi.from_dict(doc).configure(base_url=server.url + inp["base"])
+        if transport == "requests":
+            server = loopback.shared()
+            schema = schemathesis.openapi.from_dict(doc).configure(base_url=server.url + inp["base"])
+        else:
+            from vfw.harness import apps
+
+            server = apps.WsgiRecorder() if transport == "wsgi" else apps.AsgiRecorder()
+            if inp["base"]:
+                doc["servers"] = [{"url": inp["base"]}]
+            schema = schemathesis.openapi.from_dict(doc).configure(app=server)
         operation = schema[path][inp["method"].upper()]
     except Exception as exc:  # noqa: BLE001
         ctx.case(classes=["load-error"])
@@ -348,7 +373,22 @@ def check_wire(ctx: Ctx, inp) -> None:
         else:
             ctx.disagree("generation:" + outcome.split(":")[0] + (":" + outcome.split(":")[1] if outcome.startswith("error:") else ""), f"no case could be drawn for pinned values: {outcome}", input=inp)
         return
-    for case in cases[:2]:
+    # boundary (coverage phase) cases of the same operation: with pinned values every positive one carries the same values
+    boundary = []
+    try:
+        from schemathesis.generation.hypothesis.builder import _iter_coverage_cases
+
+        for c in _iter_coverage_cases(operation, [GenerationMode.POSITIVE], None):
+            if c.meta.generation.mode == GenerationMode.POSITIVE:
+                boundary.append(c)
+            if len(boundary) >= 4:
+                break
+    except Exception as exc:  # noqa: BLE001
+        ctx.disagree("boundary-cases:exception:" + type(exc).__name__, f"_iter_coverage_cases raised {exc!r}"[:300], input=inp)
+    for index, case in enumerate(cases[:2] + boundary):
+        source = "generated" if index < len(cases[:2]) else "boundary"
+        ctx.classes[f"source={source}"] += 1
+        ctx.source = source
         server.reset()
         try:
             case.call()
@@ -361,7 +401,7 @@ def check_wire(ctx: Ctx, inp) -> None:
             ctx.disagree("wire:not-exactly-one-request", f"{len(log)} requests recorded for one call", input=inp)
             continue
         req = log[0]
-        classes = [f"tier={inp['tier']}"] + [f"{p['in']}:{p['style']}:{'explode' if p['explode'] else 'noexplode'}:{p['typ']}" + (":content" if p["content"] else "") for p in inp["params"]] + ([f"body={inp['body']['media_type']}"] if inp["body"] else [])
+        classes = [f"tier={inp['tier']}", f"transport={transport}"] + [f"{p['in']}:{p['style']}:{'explode' if p['explode'] else 'noexplode'}:{p['typ']}" + (":content" if p["content"] else "") for p in inp["params"]] + ([f"body={inp['body']['media_type']}"] if inp["body"] else [])
         ctx.case(nontrivial=[inp, case.body is not NOT_SET] if nontrivial else None, classes=classes, sample={"input": inp, "request": req.as_json()})
         if req.method != inp["method"].upper():
             ctx.disagree("wire:method-differs", f"sent {req.method}", input=inp)
@@ -388,6 +428,8 @@ def check_wire(ctx: Ctx, inp) -> None:
                 ck = req.header("Cookie") or ""
                 pairs = [x.split("=", 1) for x in ck.split("; ") if "=" in x]
                 vals = [v for k, v in pairs if k == p["name"]]
+                # a quoted cookie value with octal escapes (what werkzeug's client writes for `,` `;` etc.) is read back by cookie parsers
+                vals = [_cookie_unquote(v) for v in vals]
                 _judge(ctx, inp, req, p, decode_simple(dict(p, explode=False), vals[0]) if len(vals) == 1 else [], ck)
         # (3) body
         ct = req.header("Content-Type")
@@ -405,6 +447,13 @@ def check_wire(ctx: Ctx, inp) -> None:
                     ok = json.loads(req.body.decode("utf-8")) == case.body and _same_json_types(json.loads(req.body.decode("utf-8")), case.body)
                 elif media == "application/x-www-form-urlencoded":
                     ok = sorted(parse_qsl(req.body.decode("utf-8"), keep_blank_values=True)) == sorted((k, strv(v)) for k, v in case.body.items())
+                elif media == "multipart/form-data":
+                    got = sorted(parse_multipart(ct or "", req.body))
+                    want = sorted((k, strv(i)) for k, v in case.body.items() for i in (v if isinstance(v, list) else [v]))
+                    ok = got == want
+                    if not ok and got == sorted((k, pyv(i)) for k, v in case.body.items() for i in (v if isinstance(v, list) else [v])):
+                        ctx.disagree("wire:python-spelling-of-boolean-or-null", f"multipart field: booleans / null are sent as True/False/None: {req.body[:200]!r}", input=inp, request=req.as_json())
+                        ok = True
                 else:
                     ok = req.body.decode("utf-8") == case.body
             except Exception:  # noqa: BLE001
@@ -420,6 +469,36 @@ def check_wire(ctx: Ctx, inp) -> None:
             ctx.disagree("wire:unexpected-header-added", "a Cookie header was sent although the case has no cookies", input=inp, request=req.as_json())
 
 
+def _cookie_unquote(value: str) -> str:
+    if len(value) >= 2 and value[0] == value[-1] == '"':
+        inner = value[1:-1]
+        inner = re.sub(r"\\([0-3][0-7][0-7])", lambda m: chr(int(m.group(1), 8)), inner)
+        return re.sub(r"\\(.)", r"\1", inner)
+    return value
+
+
+def parse_multipart(content_type: str, body: bytes) -> list:
+    """(field name, text) pairs of a multipart/form-data payload (RFC 7578), parsed by hand."""
+    m = re.search(r'boundary="?([^";]+)"?', content_type)
+    if not m:
+        raise ValueError("no boundary")
+    chunks = body.split(b"--" + m.group(1).encode("ascii"))
+    out = []
+    for chunk in chunks[1:]:
+        if chunk.startswith(b"--"):
+            break
+        head, sep, content = chunk.partition(b"\r\n\r\n")
+        if not sep:
+            raise ValueError("part without a header block")
+        if content.endswith(b"\r\n"):
+            content = content[:-2]
+        name = re.search(rb'name="((?:[^"\\]|\\.)*)"', head)
+        if not name:
+            raise ValueError("part without a name")
+        out.append((name.group(1).decode("utf-8"), content.decode("utf-8")))
+    return out
+
+
 def _same_json_types(a, b) -> bool:
     if isinstance(a, dict) and isinstance(b, dict):
         return a.keys() == b.keys() and all(_same_json_types(a[k], b[k]) for k in a)
@@ -432,7 +511,8 @@ def _judge(ctx, inp, req, p, decoded, raw):
     if p["content"] == "application/json":
         ok = any(isinstance(d, tuple) and d[0] == "json" and d[1] == p["value"] for d in decoded)
         if not ok:
-            ctx.disagree(f"wire:{p['in']}:json-content-parameter-differs", f"{p['name']} (content: application/json) should carry {p['value']!r}; wire {raw!r}", input=inp, request=req.as_json())
+            where = ":boundary-case" if getattr(ctx, "source", "generated") == "boundary" else ""
+            ctx.disagree(f"wire:{p['in']}:json-content-parameter-differs{where}", f"{p['name']} (content: application/json) should carry {p['value']!r}; wire {raw!r}", input=inp, request=req.as_json())
         return
     exp = expected_structure(p)
     if any(_loosely_equal(d, exp) for d in decoded):
@@ -461,7 +541,208 @@ def _loosely_equal(decoded, expected) -> bool:
     return decoded == expected
 
 
+# ---- Swagger 2.0: collectionFormat ------------------------------------------------------------------------------
+
+DELIMS = {"csv": ",", "ssv": " ", "tsv": "\t", "pipes": "|"}
+
+
+@st.composite
+def swagger_case(draw):
+    tier_name = draw(st.sampled_from(["A", "A", "B"]))
+    tier = {"A": TIER_A, "B": TIER_B}[tier_name]
+    form = draw(st.sampled_from([None, None, "application/x-www-form-urlencoded", "multipart/form-data"]))
+    params, path_used = [], False
+    for i in range(draw(st.integers(1, 3))):
+        loc = draw(st.sampled_from(["query", "query", "header", "path"] + (["formData", "formData"] if form else [])))
+        if loc == "path" and path_used:
+            loc = "query"
+        path_used = path_used or loc == "path"
+        typ = draw(st.sampled_from(["prim", "array", "array"]))
+        fmt = draw(st.sampled_from([None, "csv", "ssv", "tsv", "pipes"] + (["multi", "multi"] if loc in ("query", "formData") else [])))
+        item = draw(st.one_of(tier, st.integers(-9, 99), st.sampled_from([0.5, 2.25, -1.5]), st.booleans()))
+        value = item if typ == "prim" else [item] * draw(st.integers(1, 3))
+        flat = value if isinstance(value, list) else [value]
+        if loc == "path" and any(strv(v) == "" or any(c in strv(v) for c in "/{}") for v in flat):
+            value, typ = "seg", "prim"
+        if loc == "header" and (fmt == "tsv" or any(isinstance(v, str) and (not v.isascii() or v != v.strip()) for v in flat)):
+            value, typ, fmt = "tok", "prim", None
+        params.append({"name": f"p{i}", "in": loc, "typ": typ, "format": fmt, "value": value})
+    body = None
+    if not form and draw(st.integers(0, 3)) == 0:
+        body = draw(st.sampled_from([{"a": 1, "b": ["x", None, True]}, [1, 2], "s", {"é": "ü"}]))
+    return {"tier": tier_name, "params": params, "consumes": form, "json_body": body, "base": draw(st.sampled_from(["", "/api"])), "method": draw(st.sampled_from(["post", "put"])), "transport": draw(st.sampled_from(["requests", "requests", "wsgi", "asgi"]))}
+
+
+def swagger_type(value):
+    return {"type": "boolean" if isinstance(value, bool) else "integer" if isinstance(value, int) else "number" if isinstance(value, float) else "string", "enum": [value]}
+
+
+def build_swagger_doc(inp):
+    path = "/t" + "".join("/{%s}" % p["name"] for p in inp["params"] if p["in"] == "path") + "/end"
+    plist = []
+    for p in inp["params"]:
+        d = {"name": p["name"], "in": p["in"], "required": True}
+        if p["typ"] == "array":
+            d.update(type="array", items=swagger_type(p["value"][0]), minItems=len(p["value"]), maxItems=len(p["value"]))
+            if p["format"]:
+                d["collectionFormat"] = p["format"]
+        else:
+            d.update(swagger_type(p["value"]))
+        plist.append(d)
+    if inp["json_body"] is not None:
+        plist.append({"name": "payload", "in": "body", "required": True, "schema": {"enum": [inp["json_body"]]}})
+    op = {"parameters": plist, "responses": {"200": {"description": "ok"}}}
+    if inp["consumes"]:
+        op["consumes"] = [inp["consumes"]]
+    elif inp["json_body"] is not None:
+        op["consumes"] = ["application/json"]
+    doc = {"swagger": "2.0", "info": {"title": "t", "version": "1"}, "paths": {path: {inp["method"]: op}}}
+    if inp["base"]:
+        doc["basePath"] = inp["base"]
+    return doc, path
+
+
+def decode_collection(p, values: list):
+    """Structures a collectionFormat decoder can read from the (already percent-decoded) values carried under the parameter's name."""
+    if p["typ"] == "prim":
+        return [values[0]] if len(values) == 1 else []
+    fmt = p["format"] or "csv"
+    if fmt == "multi":
+        return [values]
+    return [values[0].split(DELIMS[fmt])] if len(values) == 1 else []
+
+
+def check_swagger2(ctx: Ctx, inp) -> None:
+    import schemathesis
+    from schemathesis.generation import GenerationConfig, GenerationMode
+
+    from vfw.harness import loopback
+    from vfw.props import c01
+
+    doc, path = build_swagger_doc(inp)
+    transport = inp["transport"]
+    try:
+        if transport == "requests":
+            server = loopback.shared()
+            schema = schemathesis.openapi.from_dict(doc).configure(base_url=server.url + inp["base"])
+        else:
+            from vfw.harness import apps
+
+            server = apps.WsgiRecorder() if transport == "wsgi" else apps.AsgiRecorder()
+            schema = schemathesis.openapi.from_dict(doc).configure(app=server)
+        operation = schema[path][inp["method"].upper()]
+    except Exception as exc:  # noqa: BLE001
+        ctx.case(classes=["load-error"])
+        ctx.disagree("load-error:" + type(exc).__name__, f"document failed to load: {exc!r}"[:300], input=inp)
+        return
+    cases, outcome = c01.draw_cases(operation, GenerationMode.POSITIVE, GenerationConfig(), 2, derive_seed("c06s", h(inp)))
+    if not cases:
+        ctx.case(classes=[f"outcome={outcome.split(':')[0]}"])
+        if outcome.startswith(("healthcheck", "timeout")):
+            ctx.inconclusive_case("no case drawn (health check / budget)")
+        else:
+            ctx.disagree("generation:" + ":".join(outcome.split(":")[:2]), f"no case could be drawn for pinned values: {outcome}", input=inp)
+        return
+    case = cases[0]
+    server.reset()
+    try:
+        case.call()
+    except Exception as exc:  # noqa: BLE001
+        ctx.case(classes=["send-exception"])
+        ctx.disagree(f"send-exception:{type(exc).__name__}", f"case.call() raised {exc!r}"[:300], input=inp)
+        return
+    log = server.snapshot()
+    if len(log) != 1:
+        ctx.disagree("wire:not-exactly-one-request", f"{len(log)} requests recorded for one call", input=inp)
+        return
+    req = log[0]
+    nontrivial = any(p["typ"] == "array" or not re.fullmatch(r"[A-Za-z0-9]+", strv(p["value"])) for p in inp["params"]) or inp["json_body"] is not None
+    classes = ["swagger2", f"transport={transport}"] + [f"{p['in']}:{p['format'] or 'default'}:{p['typ']}" for p in inp["params"]] + ([f"consumes={inp['consumes']}"] if inp["consumes"] else [])
+    ctx.case(nontrivial=inp if nontrivial else None, classes=classes, sample={"input": inp, "request": req.as_json()})
+    u = urlsplit(req.target)
+    m = re.fullmatch(re.escape(inp["base"]) + "/t" + "".join("/([^/]*)" for p in inp["params"] if p["in"] == "path") + "/end", u.path)
+    if not m or remove_dot_segments(u.path) != u.path:
+        feature = "dot-segment" if re.search(r"/\.{1,2}(/|$)", u.path) else "other"
+        ctx.disagree(f"wire:path-structure-differs:{feature}", f"request path {u.path!r} is not basePath + template with one segment per variable", input=inp, request=req.as_json())
+        segments = None
+    else:
+        segments = dict(zip([p["name"] for p in inp["params"] if p["in"] == "path"], m.groups()))
+    ct = req.header("Content-Type") or ""
+    has_form = any(p["in"] == "formData" for p in inp["params"])
+    try:
+        if not has_form:
+            form_pairs = []
+        elif inp["consumes"] == "multipart/form-data":
+            form_pairs = parse_multipart(ct, req.body)
+        elif inp["consumes"]:
+            form_pairs = parse_qsl(req.body.decode("utf-8"), keep_blank_values=True)
+        else:
+            form_pairs = []
+    except Exception as exc:  # noqa: BLE001
+        form_pairs = None
+        ctx.disagree("wire:form-body-unreadable", f"the {inp['consumes']} body cannot be parsed: {exc!r}; {req.body[:200]!r}", input=inp, request=req.as_json())
+    if inp["consumes"] and any(p["in"] == "formData" for p in inp["params"]) and ct.split(";")[0].strip().lower() != inp["consumes"]:
+        ctx.disagree("wire:content-type-differs-from-media-type", f"Content-Type {ct!r}, operation consumes {inp['consumes']!r}", input=inp, request=req.as_json())
+    for p in inp["params"]:
+        if p["in"] == "query":
+            values, raw = [v for k, v in parse_qsl(u.query, keep_blank_values=True) if k == p["name"]], u.query
+        elif p["in"] == "header":
+            hv = req.header(p["name"])
+            values, raw = ([hv] if hv is not None else []), hv
+        elif p["in"] == "path":
+            if segments is None:
+                continue
+            raw = segments[p["name"]]
+            values = [unquote(raw)]
+        else:
+            if form_pairs is None:
+                continue
+            values, raw = [v for k, v in form_pairs if k == p["name"]], req.body[:300]
+        exp = expected_structure(p)
+        decoded = decode_collection(p, values)
+        if p["in"] == "formData" and p["typ"] == "array":
+            # formData is the request body: the property asks form bodies to round-trip, and repeated fields do
+            decoded.append(values)
+        if any(d == exp for d in decoded):
+            continue
+        key = f"swagger2:{p['in']}:{p['format'] or 'default'}:{p['typ']}"
+        flat = p["value"] if isinstance(p["value"], list) else [p["value"]]
+        delim = DELIMS.get(p["format"] or "csv", "")
+        if p["typ"] == "array" and any(isinstance(v, str) and delim and delim in v for v in flat):
+            ctx.inconclusive_case("an item contains a delimiter of its own style (ambiguous by specification)")
+            continue
+        if any(d == python_structure(p) for d in decoded) and python_structure(p) != exp:
+            ctx.disagree("wire:python-spelling-of-boolean-or-null", f"{key} {p['name']}: booleans are sent as True/False: wire {raw!r}", input=inp, request=req.as_json())
+            continue
+        if p["in"] == "path" and (any(isinstance(v, str) and " " in v for v in flat) or (p["typ"] == "array" and p["format"] == "ssv")) and "+" in raw:
+            ctx.disagree("wire:path:space-sent-as-plus", f"{key} {p['name']}: a space in a path value is sent as `+` ({raw!r})", input=inp, request=req.as_json())
+            continue
+        ctx.disagree(f"wire:{key}:value-not-recovered", f"{p['name']}: a {p['format'] or 'csv'} decoder does not recover {exp!r} from {raw!r} (decoded: {decoded!r})"[:400], input=inp, request=req.as_json())
+    if inp["json_body"] is None and not has_form and req.body:
+        ctx.disagree("wire:body-sent-for-a-case-without-body", f"{len(req.body)} body bytes", input=inp, request=req.as_json())
+    if inp["json_body"] is not None:
+        try:
+            ok = json.loads(req.body.decode("utf-8")) == inp["json_body"] and ct.split(";")[0].strip().lower() == "application/json"
+        except Exception:  # noqa: BLE001
+            ok = False
+        if not ok:
+            ctx.disagree("wire:body-does-not-round-trip:application/json", f"body bytes {req.body[:200]!r} (Content-Type {ct!r}) vs pinned body {inp['json_body']!r}", input=inp, request=req.as_json())
+    declared = {p["name"].lower() for p in inp["params"] if p["in"] == "header"}
+    extra = sorted({k.lower() for k, _ in req.headers} - STANDARD_HEADERS - declared)
+    if extra:
+        ctx.disagree("wire:unexpected-header-added", f"headers {extra} are neither standard client headers nor part of the case", input=inp, request=req.as_json())
+
+
+@st.composite
+def transport_case(draw):
+    inp = draw(wire_case())
+    inp["transport"] = draw(st.sampled_from(["wsgi", "asgi"]))
+    return inp
+
+
 SUBS = [
+    Sub("swagger2", fn=check_swagger2, strategy=swagger_case, quick=(16, 150), thorough=(16, 3000), shrink_quick=False, timeout_quick=600, timeout_thorough=3400),
+    Sub("transports", fn=check_wire, strategy=transport_case, quick=(16, 150), thorough=(16, 3000), shrink_quick=False, timeout_quick=600, timeout_thorough=3400),
     Sub("wire", fn=check_wire, strategy=wire_case, quick=(16, 400), thorough=(16, 6000), shrink_quick=False, timeout_quick=600, timeout_thorough=3400),
 ]
 FLOOR = {"wire": 1500}
@@ -469,6 +750,6 @@ FLOOR = {"wire": 1500}
 MANIFEST = {
     "category": "exploration",
     "technique": "Hypothesis-generated operations with pinned parameter values; real requests to a recording loopback server decoded by independent per-style decoders (round-trip oracle)",
-    "text": "Operations with 1-3 parameters (every location x style x explode x primitive/array/object, content: parameters) whose values are pinned through single-member enums, optional/required JSON / form / text bodies and several base URLs are loaded by Schemathesis; drawn cases are sent with case.call() to a loopback server that records the raw request; the path must be base path + template with each segment decoding to the style-serialised value (and be stable under dot-segment removal), query/header/cookie values must decode with the declared style to the pinned value, bodies must round-trip with a Content-Type equal to the case's media type (none without a body) and no foreign headers may be added.",
-    "note": "requests transport only (WSGI/ASGI not exercised); OpenAPI 3 styles only (Swagger 2 collectionFormat not generated); delimiter-inside-item cases are counted as ambiguous, not judged.",
+    "text": "Operations with 1-3 parameters (every location x style x explode x primitive/array/object, content: parameters) whose values are pinned through single-member enums, optional/required JSON / form / text bodies and several base URLs are loaded by Schemathesis; drawn cases and the operation's positive boundary (coverage-phase) cases are sent with case.call() to a loopback server - or through the WSGI / ASGI transports to a recording application - that records the raw request; the path must be base path + template with each segment decoding to the style-serialised value (and be stable under dot-segment removal), query/header/cookie values must decode with the declared style to the pinned value, bodies must round-trip with a Content-Type equal to the case's media type (none without a body) and no foreign headers may be added.",
+    "note": "Three sub-checks: `wire` (requests transport, OpenAPI 3 styles, JSON / form / text / multipart bodies, generated and boundary cases), `transports` (the same inputs through the WSGI and ASGI transports into recording applications) and `swagger2` (collectionFormat csv/ssv/tsv/pipes/multi in query, header, path and formData over all three transports). Delimiter-inside-item cases are counted as ambiguous, not judged; formData arrays are accepted in either the declared collectionFormat or as repeated fields (the property asks form bodies to round-trip).",
 }
